@@ -204,7 +204,12 @@ Definition plane_ok (k : N) (arr : bool) : bool := forallb (desc_ok k arr) (rang
 (* fields the profile does not list (and every field of an unknown message) *)
 Definition nocell_ok (bt size : N) : bool :=
   match validate_cell None bt size with VPanic _ => false | _ => true end.
-Definition nodesc_ok : bool := forallb (fun bt => forallb (nocell_ok bt) (range 256 0)) (range 256 0).
+Definition nodesc_ok_on (l : list N) : bool := forallb (fun bt => forallb (nocell_ok bt) l) l.
+Lemma nodesc_on_cell l : nodesc_ok_on l = true -> forall bt sz, In bt l -> In sz l -> nocell_ok bt sz = true.
+Proof.
+  intros H bt sz Hbt Hsz. unfold nodesc_ok_on in H. rewrite forallb_forall in H.
+  specialize (H bt Hbt). rewrite forallb_forall in H. exact (H sz Hsz).
+Qed.
 
 Lemma in_range256 x : x < 256 -> In x (range 256 0).
 Proof. intros H. apply range_in. cbn. lia. Qed.
